@@ -14,7 +14,7 @@ func init() {
 	register(&propertyDef{
 		id:    "C11",
 		title: "parsing any files yields a workflow or an error, never a crash or endless loop",
-		rules: []ruleFunc{c11R1, c11R1b, c11R2, c11R2c, c11R3},
+		rules: []ruleFunc{c11R1, c11R1b, c11R2, c11R2c, c11R3, c11R4},
 		decided: "every explicit panic and unchecked type assertion in the parse and prepare paths is justified by a dominating validation (tabled, several recomputed); map-key lookups whose `found` result is ignored use keys listed by the same node, and the YAML transform admits only scalar keys (R1); " +
 			"every call-graph cycle through parse/prepare functions has, on each of its cycles, a call whose argument is a strict projection of the caller's parameter (structural decrease) or is guarded by a visited-set membership test (R2); " +
 			"the errors of file reads and context lookups are propagated to the caller (R3).",
@@ -551,7 +551,7 @@ func derivation(v ssa.Value, p *ssa.Parameter) int {
 		case *ssa.Slice:
 			walk(x.X, projected, d+1)
 		case *ssa.FieldAddr:
-			walk(x.X, true, d+1)
+			walk(x.X, projected || !selfPointerField(x), d+1)
 		case *ssa.IndexAddr:
 			walk(x.X, true, d+1)
 		case *ssa.MakeSlice, *ssa.MakeMap:
@@ -579,7 +579,7 @@ func derivation(v ssa.Value, p *ssa.Parameter) int {
 			if x.Op == token.MUL {
 				switch y := x.X.(type) {
 				case *ssa.FieldAddr:
-					walk(y.X, true, d+1)
+					walk(y.X, projected || !selfPointerField(y), d+1)
 				case *ssa.IndexAddr:
 					walk(y.X, true, d+1)
 				default:
@@ -1206,4 +1206,158 @@ func (c *Ctx) scalarCheckCoversAllKeys(fn *ssa.Function, blk *ssa.BasicBlock, ki
 		}
 	}
 	return false
+}
+
+// C11.R4 constant positions in file-derived slices are guarded by a length test.
+var c11IndexTable = map[string]string{
+	"(yaml.parser).transform|index 0 of field Content": "a yaml.v3 DocumentNode always has exactly one content node (the decoder creates the document node only around a parsed root; an empty stream yields Kind 0, which the case above rejects) — confirmed with empty, comment-only and `---`/`...` inputs",
+}
+
+func c11R4(c *Ctx) {
+	const rule = "C11.R4"
+	c.explain("C11.R4 every index or slice expression with a constant position on a slice in the parse/prepare paths (path segments of an expression, sub-matches, yaml content) is dominated by a test of len() of that very slice which implies the position exists, or is tabled with the reason: a shorter value (`!expr $` has a one-segment path) would panic with index out of range")
+	scope := map[*ssa.Function][]string{}
+	for f, ch := range c.Scopes().parse {
+		scope[f] = ch
+	}
+	for f, ch := range c.Scopes().prepare {
+		scope[f] = ch
+	}
+	n := 0
+	cnt := map[string]int{}
+	for _, fn := range c.sortedFns(scope) {
+		eachInstr(fn, func(r instrRef) {
+			var base ssa.Value
+			need := int64(-1) // the slice must have at least `need` elements
+			what := ""
+			switch x := r.I.(type) {
+			case *ssa.IndexAddr:
+				if _, isSlice := x.X.Type().Underlying().(*types.Slice); !isSlice {
+					return
+				}
+				k, ok := constInt(x.Index)
+				if !ok {
+					return
+				}
+				base, need, what = x.X, k+1, fmt.Sprintf("index %d", k)
+			case *ssa.Slice:
+				if _, isSlice := x.X.Type().Underlying().(*types.Slice); !isSlice {
+					return
+				}
+				lo, hi := int64(0), int64(0)
+				if x.Low != nil {
+					if k, ok := constInt(x.Low); ok {
+						lo = k
+					}
+				}
+				if x.High != nil {
+					k, ok := constInt(x.High)
+					if !ok {
+						return
+					}
+					hi = k
+				}
+				if lo == 0 && hi == 0 {
+					return
+				}
+				base, what = x.X, fmt.Sprintf("slice [%d:%d]", lo, hi)
+				need = lo
+				if hi > need {
+					need = hi
+				}
+			default:
+				return
+			}
+			if _, fresh := base.(*ssa.MakeSlice); fresh {
+				return
+			}
+			n++
+			origin := valueOrigin(base)
+			tk := c.fnName(fn) + "|" + what + " of " + origin
+			cnt[tk]++
+			key := "const-index@" + c.fnName(fn) + "#" + sanitize(what+" of "+origin)
+			if cnt[tk] > 1 {
+				key += fmt.Sprintf("#%d", cnt[tk])
+			}
+			if why, ok := c11IndexTable[tk]; ok {
+				c.ok(rule, key, c.instrPos(r.I), "tabled: "+why, false)
+				return
+			}
+			c.verdict(lenImplies(r.I, base, need), rule, key, c.instrPos(r.I), fmt.Sprintf("a dominating test of len() guarantees at least %d elements", need),
+				fmt.Sprintf("%s of %s is not guarded by a length test that guarantees %d elements: a shorter value derived from the file contents panics (index out of range) instead of producing an error", what, origin, need))
+		})
+	}
+	c.minCount(rule, "constant positions in slices of the parse/prepare paths", n, 4)
+}
+
+// lenImplies: on every path to `at`, a branch on len(base) (same value, or another load of the same cell / range element)
+// has been taken in a direction that implies len(base) >= need.
+func lenImplies(at ssa.Instruction, base ssa.Value, need int64) bool {
+	sameSlice := func(v ssa.Value) bool {
+		if v == base {
+			return true
+		}
+		return derivesFrom(v, isValue(base)) || derivesFrom(base, isValue(v))
+	}
+	for _, edge := range []bool{true, false} {
+		edge := edge
+		if guardedBy(at, edge, func(cond ssa.Value) bool {
+			b, ok := cond.(*ssa.BinOp)
+			if !ok {
+				return false
+			}
+			l, ok := b.X.(*ssa.Call)
+			if !ok || !isBuiltinCall(l, "len") || !sameSlice(l.Call.Args[0]) {
+				return false
+			}
+			k, ok := constInt(b.Y)
+			if !ok {
+				return false
+			}
+			op := b.Op.String()
+			if edge { // condition true
+				switch op {
+				case "==":
+					return k >= need
+				case ">=":
+					return k >= need
+				case ">":
+					return k+1 >= need
+				}
+				return false
+			}
+			// condition false
+			switch op {
+			case "!=":
+				return k >= need
+			case "<":
+				return k >= need
+			case "<=":
+				return k+1 >= need
+			}
+			return false
+		}) != nil {
+			return true
+		}
+	}
+	return false
+}
+
+// selfPointerField: the field is a single pointer to the struct type it belongs to (yaml.Node.Alias, a `parent` or
+// `next` link). Such a pointer is a cross reference, not a child of a finite tree: it may lead back to an ancestor, so
+// following it does not decrease the recursion measure.
+func selfPointerField(fa *ssa.FieldAddr) bool {
+	st := structOf(fa.X.Type())
+	if st == nil || fa.Field >= st.NumFields() {
+		return false
+	}
+	ft, ok := st.Field(fa.Field).Type().(*types.Pointer)
+	if !ok {
+		return false
+	}
+	owner := fa.X.Type()
+	if p, ok := owner.Underlying().(*types.Pointer); ok {
+		owner = p.Elem()
+	}
+	return types.Identical(ft.Elem(), owner)
 }
